@@ -108,9 +108,18 @@ def network_snapshot(net):
                              _ids(s.first_occurrence), np.asarray(s.position).tolist(), bool(s.virtual)])
     for lt in net.traffic_lights:
         c = lt.traffic_light_cycle
+        answers = None
+        if c is not None and c.cycle_elements:
+            try:
+                # public derived data of the cycle and a fixed panel of answers: a query that corrupts the memo shows
+                # up as a changed value / a changed answer
+                answers = [[int(x) for x in c.cycle_init_timesteps],
+                           [lt.get_state_at_time_step(t).name for t in range(0, 14)]]
+            except Exception as e:  # noqa
+                answers = ["raised", type(e).__name__]
         out["lights"].append([lt.traffic_light_id, np.asarray(lt.position).tolist(),
                               None if c is None else [[(e.state.name, e.duration) for e in c.cycle_elements],
-                                                      c.time_offset, c.active],
+                                                      c.time_offset, c.active], answers,
                               [x.name for x in lt.color], lt.active, lt.direction.name, shape_desc(lt.shape)])
     for it in net.intersections:
         out["intersections"].append([it.intersection_id,
@@ -461,6 +470,20 @@ class Run(RunBase):
 
         from commonroad.visualization.mp_renderer import MPRenderer
 
+        if op.get("focus") is not None:
+            ob = self._ob(op["focus"])
+            try:
+                rnd = MPRenderer(plot_limits=[-20, 20, -20, 20], focus_obstacle=ob)
+                for t in op["times"]:  # an animation: the same renderer draws consecutive frames
+                    rnd.draw_params.time_begin = t
+                    rnd.draw_params.time_end = t + 2
+                    self.sc.draw(rnd)
+                    rnd.render()
+                    rnd.clear()
+                self.probe("render-animation-with-focus-obstacle")
+            finally:
+                plt.close("all")
+            return
         try:
             rnd = MPRenderer()
             if op.get("time_begin") is not None:
@@ -589,6 +612,10 @@ def _inspector(rng, run, cfg):
                   "time_begin": rng.choice([None, 0, 1, 3, 50])}
             if rng.chance(0.7):
                 op["flags"] = {f: rng.chance(0.7) for f in rng.subset(RENDER_FLAGS, 0.25, at_least=1)}
+            dyn = [o.obstacle_id for o in sc.dynamic_obstacles]
+            if dyn and rng.chance(0.3):
+                t0 = rng.randint(0, 3)
+                op = {"op": k, "what": "scenario", "focus": rng.pick(dyn), "times": [t0, t0 + 1, t0 + 2][: rng.randint(2, 3)]}
         elif k == "export" and n_exp < cfg["max_export"]:
             n_exp += 1
             fmt = rng.pick(["xml", "pb"])
@@ -634,7 +661,8 @@ class C18(Property):
                        "feature:defaultdict-goal-table", "feature:pm-trajectory", "feature:uncertain-state",
                        "feature:shape-group", "feature:set-based", "export-compared-xml", "export-compared-pb",
                        "cell:q_obstaclexcustom-state-without-orientation", "cell:exportxdefaultdict-goal-table",
-                       "cell:renderxcustom-state-without-orientation", "op-raised:goal", "op-raised:export", "render-flag:draw_intersections", "render-flag:draw_icon"]
+                       "cell:renderxcustom-state-without-orientation", "op-raised:goal", "op-raised:export", "render-flag:draw_intersections", "render-flag:draw_icon",
+                       "render-animation-with-focus-obstacle"]
     assumptions = [
         "the snapshot reads public accessors only and never touches derived data whose computation is itself one of "
         "the side effects hunted (occupancy_set, distance, shapely_object)",
